@@ -229,24 +229,27 @@ impl Lsp {
     /// differs from the file on disk, the server is made to compute locations and diagnostics for it, and it is
     /// closed without saving. Afterwards the file on disk is the document again, and nothing of the draft may
     /// show in any answer.
-    pub fn disturb(&mut self, uri: &str, disk_text: &str) -> Result<(), LspError> {
-        // a valid draft first (the server resolves it and computes locations inside it) ...
-        let draft = format!("// draft: not saved\n/* two more\n   lines é😉 */ let zzdraft = {{}} ;\n{disk_text}");
-        self.did_open(uri, &draft)?;
-        let doc = ClientDoc::new(&draft);
-        let mut from = 0;
-        for _ in 0..4 {
-            let Some(i) = draft[from..].find("let ") else { break };
-            let b = from + i + 4;
-            let p = doc.position_of_byte(&draft, b);
-            self.position_request("textDocument/references", uri, p[0], p[1])?;
-            self.position_request("textDocument/definition", uri, p[0], p[1])?;
-            from = b;
+    pub fn disturb(&mut self, uri: &str, disk_text: &str, broken: bool) -> Result<(), LspError> {
+        if broken {
+            // a draft with an error: the server publishes a diagnostic inside it
+            let draft = format!("// draft\n\n\n\nlet zzdraft = nowhere ;\n{disk_text}");
+            self.did_open(uri, &draft)?;
+            self.position_request("textDocument/definition", uri, 0, 0)?;
+        } else {
+            // a valid draft: the server resolves it and computes locations inside it
+            let draft = format!("// draft: not saved\n/* two more\n   lines é😉 */ let zzdraft = {{}} ;\n{disk_text}");
+            self.did_open(uri, &draft)?;
+            let doc = ClientDoc::new(&draft);
+            let mut from = 0;
+            for _ in 0..4 {
+                let Some(i) = draft[from..].find("let ") else { break };
+                let b = from + i + 4;
+                let p = doc.position_of_byte(&draft, b);
+                self.position_request("textDocument/references", uri, p[0], p[1])?;
+                self.position_request("textDocument/definition", uri, p[0], p[1])?;
+                from = b;
+            }
         }
-        // ... then one with an error and yet another layout (the server publishes a diagnostic inside it)
-        let broken = format!("// draft\n\n\n\nlet zzdraft = nowhere ;\n{disk_text}");
-        self.did_change(uri, 2, &[(None, broken)])?;
-        self.position_request("textDocument/definition", uri, 0, 0)?;
         self.did_close(uri)?;
         // a request forces the refresh that follows the close
         self.position_request("textDocument/definition", uri, 0, 0)?;
